@@ -360,7 +360,7 @@ def l3_compare(model, work, n_kids_expected):
 
 
 # ---------------------------------------------------------------- sequences: model + real + oracle
-BUILTINS = {"minfd": ("o", 0), "cd /no_such_dir_zq": ("e", 1), "alias": ("o", 0), "alias zz_none": ("e", 1)}
+BUILTINS = {"alias zq=2": ("", 0), "cd .": ("", 0), "minfd": ("o", 0), "cd /no_such_dir_zq": ("e", 1), "alias": ("o", 0), "alias zz_none": ("e", 1)}
 
 
 def ext_acts(i, reads, code=0, sig=None, delay=0):
@@ -600,7 +600,7 @@ def gen_stage(rng, i, n, step_paths, unop_pool, capture, weights):
                 tgt = unop_pool.pop() if (unop_pool and rng.random() < weights.get("unopenable", 0.1)) else step_paths.pop()
                 redirs.append("%s%s%d" % (rng.choice("12"), rng.choice("ta"), tgt))
     if kind == "B":
-        b = rng.choice(sorted(k for k in BUILTINS if k != "minfd"))
+        b = rng.choice(sorted(k for k in BUILTINS if k not in ("minfd", "alias zq=2", "cd .")))
         return mk_stage("B", frm if n > 1 else "-", redirs, BUILTINS[b][0], builtin=b)
     if kind == "N":
         return mk_stage("N", frm, redirs)
@@ -712,7 +712,8 @@ def judge(out, prop, known):
 
 
 # ---------------------------------------------------------------- final file contents (C04: create / truncate / append)
-TEXTS = {"alias": (b"alias zq='1'\n", b""), "alias zz_none": (b"", b"cicada: alias: zz_none: not found\n"),
+TEXTS = {"alias zq=2": (b"", b""), "cd .": (b"", b""), "unalias zq_none_such": (None, None),
+         "alias": (b"alias zq='1'\n", b""), "alias zz_none": (b"", b"cicada: alias: zz_none: not found\n"),
          "cd /no_such_dir_zq": (b"", b"cicada: cd: /no_such_dir_zq: No such file or directory\n"), "alias zq=1": (b"", b""),
          "minfd": (None, b"")}
 NOTFOUND = b"cicada: no_such_cmd_zq: command not found\n"
@@ -740,11 +741,12 @@ def expected_files(out):
             pos = m["posix"][i]
             touched = [path_name(int(o.split(".")[0]), s["unop"]) for o in pos["opens"]]
             from_bad = st["frm"].startswith("<") and int(st["frm"][1:]) in s["unop"]
-            unsure = lone_builtin or bool([c for c in pos["cls"] if c != "oos"]) or "oos" in pos["cls"]
+            unsure = bool([c for c in pos["cls"] if c != "oos"]) or "oos" in pos["cls"]
             nxt = s["stages"][i + 1] if i + 1 < n else None
             lost_asis = st["kind"] == "B" and s["capture"] and n > 1 and i == n - 1
-            if not pos["ok"]:
+            if not pos["ok"] and not lone_builtin:
                 unsure = True              # the diagnostic goes to the stage's current (possibly redirected) stderr
+                                           # (a builtin alone on its line reports on the shell's own stderr)
             if nxt is not None and (nxt["kind"] != "E" or not m["posix"][i + 1]["ok"] or nxt["frm"] != "-"):
                 unsure = True              # the reader may be gone before this stage writes (SIGPIPE)
             if unsure:
@@ -770,6 +772,11 @@ def expected_files(out):
                         se += pat(int(a[1:]))
             elif st["kind"] == "B":
                 so, se = TEXTS.get(st["builtin"], (None, None))
+                if lone_builtin and s["capture"]:
+                    # a captured builtin alone on its line keeps its text in the CommandResult (the substitution gets it);
+                    # whether a file target also receives it is not claimed here: predictable only if it prints nothing
+                    so = b"" if so == b"" else None
+                    se = b"" if se == b"" else None
             else:
                 so, se = b"", NOTFOUND
             for data, sink in ((so, pos["sinks"][1]), (se, pos["sinks"][2])):
